@@ -88,7 +88,7 @@ class C11(EngineProp):
         "retry policies in this family are attempt-based (stop_after_attempt), so a replay executed at a later clock reading cannot legitimately take a different retry decision",
         "exceptions are compared by type name and message",
     ]
-    gen_kwargs = dict(collect=True, waits=True, retries=True, resume=True, unhandled=True, cancel=True, timeouts=True, stop_mode="any", nonevent=True, reply_step=True, ask=True)
+    gen_kwargs = dict(collect=True, waits=True, retries=True, resume=True, unhandled=True, cancel=True, timeouts=True, stop_mode="any", nonevent=True, reply_step=True, ask=True, ask_consumer=True)
     budgets = {"quick": 800, "thorough": 5000}
     wall = {"quick": 60.0, "thorough": 900.0}
     probe = False
